@@ -1521,7 +1521,8 @@ def _b_c03_line(ast):
 
 # ------------------------------------------------------------------ C16
 HEADER_C16 = """From Coq Require Import ZArith NArith List Bool SpecFloat.
-From JsonSyntax Require Import Base.Prelude Base.Value Base.Float64 Spec.NumSpelling Spec.Multimap Spec.SerdeTyped Model.Serde.
+From JsonSyntax Require Import Base.Prelude Base.Value Base.Float64 Spec.NumSpelling Spec.Multimap Spec.SerdeTyped Model.Serde
+  Spec.SerdeShape32.
 """ + _B_PRINTING + """
 (* the float tables of the case line: the most recent entry for a bit pattern wins (the driver prepends) *)
 Fixpoint x_assoc (b : Z) (l : list (Z * list N)) : option (list N) :=
@@ -1553,13 +1554,17 @@ Definition x_hyp (tab64 tab32 tabsj : list (Z * list N)) : bool :=
              (de_f64 (num_event s) =? f64_norm b)%Z && nkey_eqb (num_key false s) (key_of_f64 b)) tab64
   && forallb (fun e : Z * list N => let (b, s) := e in
                 (de_f32 s =? f32_norm b)%Z
+                && (sf32_bits (sgl s) =? b)%Z
                 && match x_assoc (f64_of_f32 b) tabsj with Some sj => (de_f32 sj =? b)%Z | None => false end) tab32
   && forallb (fun e : Z * list N => let (b, s) := e in
                 match num_event s with EvF b' => (b' =? b)%Z | _ => false end) tabsj.
 Definition x_c16 (E : env) (t : ty) (d : tsd) (tab64 tab32 tabsj : list (Z * list N)) (xv : option value) :=
   let fuel := 100000%nat in
   let sv := tser (x_fmt tab64 fmt_f64_ref) (x_fmt tab32 fmt_f32_ref) d in
-  ((has_type E d t, finite_floats d, known_class d, no_f32 d, x_hyp tab64 tab32 tabsj),
+  ((has_type E d t, finite_floats d, known_class d, no_f32 d, x_hyp tab64 tab32 tabsj,
+    (* the premise of C16_shape32 / C16_shape32_model on the f64 leaves, in both readings *)
+    f64_leaves_agree32 (x_fmt tab64 fmt_f64_ref) d
+    && forallb (fun b => nkey_eqb (num_key true (x_fmt tab64 fmt_f64_ref b)) (key_of_float true b)) (f64_leaves d)),
    norm d,
    match sv with
    | Ok v => (0, Some (x_cv v, x_dres (de E fuel t v)))
@@ -1573,8 +1578,9 @@ Definition x_c16 (E : env) (t : ty) (d : tsd) (tab64 tab32 tabsj : list (Z * lis
    | Ok j => Some (j,
                    match sv with
                    | Ok v => (shape_eqb (shape_of false v) (shape_of_sj false j),
-                              shape_eqb (shape_of true v) (shape_of_sj true j))
-                   | _ => (false, false)
+                              shape_eqb (shape_of true v) (shape_of_sj true j),
+                              shape_eqb (shape32 v) (shape32_sj j))
+                   | _ => (false, false, false)
                    end,
                    x_dres (de E fuel t (from_tsj (x_fmt tabsj fmt_sj_ref) j)))
    | _ => None
@@ -1889,8 +1895,8 @@ def _b_enc_sj(j):
 
 def _b_c16_line(ast):
     # the leading tuple of flags is printed flattened into the outer one (pairs associate to the left)
-    f0, f1, f2, f3, f4, nd, ser, sj, dx = ast[1]
-    ht, fin, kc, nof32, hyp = [_b_bool(x) for x in (f0, f1, f2, f3, f4)]
+    f0, f1, f2, f3, f4, f5, nd, ser, sj, dx = ast[1]
+    ht, fin, kc, nof32, hyp, l64 = [_b_bool(x) for x in (f0, f1, f2, f3, f4, f5)]
     dom = ht and fin
     nd_s = _b_enc_sd(nd)
     b01 = lambda b: "1" if b else "0"
@@ -1910,18 +1916,19 @@ def _b_c16_line(ast):
         ser_s, de_s, rt = ("EK", "EM", "EC", "PANIC", "FUEL")[tag - 1], "-", False
     if sj[1] == "Some":
         j, shs, r = sj[2][0][1]
-        sh, sh32 = [_b_bool(x) for x in shs[1]]
+        sh, sh32, sh32s = [_b_bool(x) for x in shs[1]]
         sj_s = _b_enc_sj(j)
         via_s, vrt = dres(r)
     else:
-        sj_s, sh, sh32, via_s, vrt = "E", False, False, "-", False
+        sj_s, sh, sh32, sh32s, via_s, vrt = "E", False, False, False, "-", False
     model = (f"dom={b01(dom)} hyp={b01(hyp)} | ser {ser_s} | de {de_s} | rt={b01(rt)} | sj {sj_s} | sh={b01(sh)} "
              f"sh32={b01(sh32)} | via {via_s} | vrt={b01(vrt)}")
     if dx[1] == "Some":
         model += " | dx " + dres(dx[2][0])[0]
     want = lambda c, x: True if c else x        # on its domain the property demands it; elsewhere the model's own answer
-    spec = (f"rt={b01(want(dom, rt))} sh={b01(want(dom and nof32, sh))} sh32={b01(want(dom, sh32))} "
-            f"vrt={b01(want(dom, vrt))} K={b01(kc)}")
+    # sh32: demanded where every f64 leaf agrees with its spelling at binary32 (L64); elsewhere the specification's own shape32
+    spec = (f"rt={b01(want(dom, rt))} sh={b01(want(dom and nof32, sh))} sh32={b01(want(dom and l64, sh32s))} "
+            f"vrt={b01(want(dom, vrt))} K={b01(kc)} L64={b01(l64)}")
     return model, spec
 
 
